@@ -87,6 +87,8 @@ def gen_pattern(rng: random.Random, rev: str, used: set) -> str:
     for _ in range(20):
         n = rng.choice([1, 1, 2, 2, 3])
         toks = [rng.choice(LIT)]
+        if rng.random() < 0.06:
+            toks = [rev + rng.choice(["body", "x", "-flag"])]    # starts with the prefix, without the blank
         for _ in range(n - 1):
             toks.append(rng.choice(LIT + VAL[:3] + ["*", "*", "*", "*"]))
         r = rng.random()
@@ -156,6 +158,8 @@ def gen_acl(rng: random.Random, rev: str, depth: int = 0, max_depth: int = 3, wi
     if out and rng.random() < 0.15:
         base = rng.choice(out)
         it = gen_item(rng, base["pat"], rev, depth, max_depth, aligned)
+        if rng.random() < 0.6:                       # united by max(): make the priorities differ
+            it["prio"], it["prio_explicit"] = rng.choice([1, 2, 3]), True
         out.append(it)
     # the very same line twice (merged by the text parser)
     if out and rng.random() < 0.06:
@@ -255,3 +259,62 @@ def acl_size(items: list[dict]) -> int:
 
 def acl_depth(items: list[dict]) -> int:
     return 0 if not items else 1 + max(acl_depth(it.get("kids", [])) for it in items)
+
+
+# ------------------------------------------------------------------ targeted families
+
+def _it(pat, **kw):
+    d = {"pat": pat, "ign": False, "glob": False, "cd": None, "prio": 0, "gens": [], "kids": []}
+    d.update(kw)
+    return d
+
+
+def gen_acl_overlap(rng: random.Random, rev: str) -> tuple[list[dict], dict]:
+    """Several rules matching the same rows, each owned by one of two or three generators with
+    mixed cant_delete flags: what the `exclusive` check of match_row_to_acl looks at."""
+    base = rng.choice(["alpha", "port", "vlan"])
+    pats = [f"{base} *", f"{base} 1", f"{base} ~", "~", "* 1", f"{base} * x", f"{rev} {base} *"]
+    rng.shuffle(pats)
+    names = GENS[:rng.choice([2, 2, 3])]
+    acl = []
+    for p in pats[: rng.randint(2, 5)]:
+        it = _it(p, cd=[rng.random() < 0.5], gens=[rng.choice(names)])
+        if rng.random() < 0.15:
+            it["glob"] = True
+        if rng.random() < 0.15:
+            it["prio"], it["prio_explicit"] = rng.choice([1, 2]), True
+        if rng.random() < 0.3 and not it["glob"]:
+            it["kids"] = [_it("~", cd=[rng.random() < 0.5], gens=[rng.choice(names)]),
+                          _it("mtu *", cd=[rng.random() < 0.5], gens=[rng.choice(names)])][: rng.randint(1, 2)]
+        acl.append(it)
+    tree = {}
+    for row in [f"{base} 1", f"{base} 2", f"{base} 1 x", f"{rev} {base} 1", "beta 1", f"{base}"]:
+        if rng.random() < 0.7:
+            tree[row] = {"mtu 9000": {}, "ip x": {}} if rng.random() < 0.5 else {}
+    return acl, tree
+
+
+def gen_acl_conflict(rng: random.Random, rev: str) -> tuple[list[dict], dict]:
+    """Two rules matching the same row contribute the same child row with different parameters
+    (prio, cant_delete), and a competitor of another kind (a %global rule, or the reverse form of
+    a cant_delete rule) sits between them: which parameters survive the merge of the children
+    rules decides who governs the child row."""
+    p1, p2, pg = rng.sample([0, 1, 2, 3], 3) if rng.random() < 0.7 else [rng.randint(0, 2) for _ in range(3)]
+    kid = rng.choice(["k ~", "k *", "k"])
+    k1 = _it(kid, prio=p1, prio_explicit=True, kids=[_it("x")], cd=[rng.random() < 0.3])
+    k2 = _it(kid, prio=p2, prio_explicit=True, kids=[_it("y")], cd=[rng.random() < 0.3])
+    comp = rng.choice(["global", "global-child", "reverse"])
+    acl = [_it("p *", kids=[k1]), _it("p 1", kids=[k2])]
+    if rng.random() < 0.5:
+        acl.reverse()
+    if comp == "global":
+        acl.append(_it("k *", glob=True, prio=pg, prio_explicit=True))
+    elif comp == "global-child":
+        acl[0]["kids"].append(_it("k 5", glob=True, prio=pg, prio_explicit=True))
+    else:
+        acl[rng.randrange(2)]["kids"].append(_it(f"{rev} k *", prio=pg, prio_explicit=True, cd=[True]))
+    if rng.random() < 0.3:
+        acl.insert(rng.randrange(len(acl) + 1), _it("~", glob=rng.random() < 0.5))
+    tree = {"p 1": {"k 5": {"x": {}, "y": {}, "z": {}}, "k": {"x": {}}, f"{rev} k 5": {}},
+            "p 2": {"k 5": {"x": {}, "y": {}}}}
+    return acl, tree
